@@ -120,8 +120,9 @@ def check(ctx):
         ctx.count(text, nontrivial=r["status"] is not None, bucket=bucket + ("/err" if r["status"] == 1 else "/ok" if r["status"] == 0 else "/x"))
         how = how or "execute(%r)" % text
         if bad == "HANG":
-            if not BIG.search(text):
-                ctx.violation("exec-hang:" + text, text, "returns promptly", "no result within 4 s", how)
+            # a loaded machine must not look like a hang: confirm with a second run under five times the budget
+            if not BIG.search(text) and classify(R.execute(text, timeout=20)) == "HANG":
+                ctx.violation("exec-hang:" + text, text, "returns promptly", "no result within 4 s (nor within 20 s on a second run)", how)
             return r
         if bad:
             ctx.violation("exec:" + bad.split(":")[0] + ":" + text, text, "status 0 + output only, or status 1 + diagnostic only", bad, how)
@@ -227,6 +228,25 @@ def check(ctx):
     pipeline.run(ctx, [c[2] for c in rng.sample(cases, min(len(cases), ctx.n(3000, 30000)))], label="run-c06-inputs", min_modelled=0.0)
     # ---- (v) interpreter commands
     cmd_cases = []
+
+    def cmd_out(line):
+        buf, saved = io.StringIO(), sys.stdout
+        sys.stdout = buf
+        try:
+            with core.alarm(4):
+                interp.execute_interpreter_command(line)
+        except BaseException:  # noqa
+            return None
+        finally:
+            sys.stdout = saved
+        return buf.getvalue()
+    # what "unknown command" and "wrong number of arguments" look like is LEARNT from the code (never its wording assumed):
+    # the answer to a word that is no command, and the common beginning of two different arity complaints
+    unknown_txt = cmd_out("%zqxjvnosuchcommand")
+    a1, a2 = cmd_out("%help surplus"), cmd_out("%unit")
+    arity_prefix = os.path.commonprefix([a1, a2]) if a1 and a2 and a1 != unknown_txt and a2 != unknown_txt else None
+    if arity_prefix is not None and len(arity_prefix) < 4:
+        arity_prefix = None
     words_pool = ["q", "quit", "h", "help", "u", "unit", "us", "units", "cs", "currencies", "f", "function", "fs", "functions", "x", "",
                   "km", "kdegC", "degC", "nosuch", "sin", "+", "%", "m", "μm", "1", "a b"]
     for _ in range(ctx.n(120, 1500)):
@@ -247,8 +267,8 @@ def check(ctx):
         if escaped and escaped != "ExitKaSignal":
             ctx.violation("cmd-escape:" + line, line, "a message, never an exception", escaped, "execute_interpreter_command(%r)" % line)
         words = line[1:].split()
-        real = "escaped" if (escaped and escaped != "ExitKaSignal") else ("unknown" if txt.startswith("Unknown interpreter command") else
-                                                                      ("arity" if txt.startswith("Expected ") else "run"))
+        real = "escaped" if (escaped and escaped != "ExitKaSignal") else ("unknown" if (unknown_txt is not None and txt == unknown_txt) else
+                                                                      ("arity" if (arity_prefix and txt.startswith(arity_prefix)) else "run"))
         cmd_cases.append(("execcmd " + (" ".join(words) if words else "-"), real, line))
     ctx.correspond("exec", cases)
     ctx.correspond("execcmd", cmd_cases, agree=lambda real, model, info: model.split(" ")[0] == real)
@@ -280,3 +300,11 @@ def check(ctx):
                 if not (r["escaped"] is None and r["status"] is None):
                     ctx.violation("cli:" + text, text, "exit code = execute status %r, no traceback" % r["status"],
                                   "exit %r, stderr %s" % (rc, err[-200:]), "HOME=<empty> python -m ka.cli %r" % text)
+
+
+# ---- refinement lemmas of the unified pipeline model for this property (Props/Pipeline2.lean): the fragment this check's
+# theorems are about IS what the whole-program model computes on the fragment's sub-language
+import pipeline as _pl
+LEAN_MODULES = LEAN_MODULES + [m for m in _pl.LEAN_MODULES2 if m not in LEAN_MODULES]
+THEOREMS = THEOREMS + [t for t in _pl.THEOREMS2.get(ID, []) if t not in THEOREMS]
+GEN = GEN + [g for g in _pl.GEN if g not in GEN]
